@@ -105,7 +105,7 @@ def py_proof(run, prop, args):
             m, c = py_leg.mod_cls(lang, t)
             text = (work / (m.replace(".", "/") + ".py")).read_text()
             try:
-                cases = pyprog.cases_of(t, direction)
+                cases = pyprog.cases_of(t, direction, 300 if args.tier != "thorough" else 3000)
             except pyprog.NotInSubset as ex:
                 outside[str(t)] = f"not in the subset: {ex}"
                 continue
